@@ -201,6 +201,7 @@ type runStats struct {
 	queries    int
 	solverS    float64
 	assertQ    int
+	assertConcTrue, assertConcFalse int
 	assertUns  int
 	assertSat  int
 	unknown    int
@@ -307,6 +308,8 @@ func explore(ld *loaded, entries []*ssa.Function, cfg *Config, workers int, maxP
 					st.solverS += ex.solver2.dur.Seconds()
 				}
 				st.assertQ += ex.nAssertQ
+				st.assertConcTrue += ex.nAssertConcTrue
+				st.assertConcFalse += ex.nAssertConcFalse
 				st.assertUns += ex.nAssertUnsat
 				st.assertSat += ex.nAssertSat
 				st.unknown += ex.nUnknown
@@ -1130,9 +1133,12 @@ func runCheck(mode string, args []string) {
 			"transitions":                   nDecis,
 			"traces_validated_against_impl": matched,
 			"samples":                       samples,
-			"obligations":                   st.assertQ,
-			"discharged":                    st.assertUns,
-			"explanation": "bounded symbolic model checking of the real code: go/ssa of the current /repo tree is executed symbolically by gosmt; states = completed feasible paths (each is one class of inputs decided by the solver for all values inside it), transitions = branch/shape decisions taken, obligations = assertion queries pc AND NOT assertion, discharged = unsat answers, traces_validated = per-path solver witnesses re-executed on the natively compiled code with identical observables",
+			"obligations":                   st.assertQ + st.assertConcTrue + st.assertConcFalse,
+			"discharged":                    st.assertUns + st.assertConcTrue,
+			"assertion_queries":             st.assertQ,
+			"assertion_queries_unsat":       st.assertUns,
+			"assertions_decided_by_path":    st.assertConcTrue + st.assertConcFalse,
+			"explanation": "bounded symbolic model checking of the real code: go/ssa of the current /repo tree is executed symbolically by gosmt; states = completed feasible paths (each is one class of inputs decided by the solver for all values inside it), transitions = branch/shape decisions taken, obligations = assertion instances over all paths: either a solver query (pc AND NOT assertion; assertion_queries) or an assertion whose condition is already a constant on its path because the branch decisions that fix it were each decided by a solver feasibility query (assertions_decided_by_path); discharged = unsat answers + constants true, traces_validated = per-path solver witnesses re-executed on the natively compiled code with identical observables",
 			"exhaustive":             !st.truncated && nUnsup == 0 && nAbort == 0,
 			"paths_total":            nPaths,
 			"paths_ok":               nOK,
